@@ -5,6 +5,7 @@ _MODULES = [
     "c01_chunking",
     "c02_pipeline",
     "c09_body_stream",
+    "c10_limits",
 ]
 
 REGISTRY: dict = {}
